@@ -45,7 +45,7 @@ h("c09_data_roundtrip_content_q", "fdl_telegram.rs", TG, ["C09"], timeout_s=600,
 h("c09_data_roundtrip_content_t", "fdl_telegram.rs", TG, ["C09"], tier="thorough", timeout_s=3000, mem_gb=12, weight=2, functions=CODEC,
   bounds="payload 0..=64 bytes fully symbolic; otherwise as _q; unwind 79", obligation="as c09_data_roundtrip_content_q")
 h("c09_data_roundtrip_all_lengths_t", "fdl_telegram.rs", TG, ["C09"], tier="thorough", timeout_s=3600, mem_gb=16, weight=3, functions=CODEC,
-  bounds="every payload length 0..=246-#SAPs (LE <= 249) with one symbolic fill byte; unwind 160", obligation="wire bytes == reference frame, round trip, for all lengths up to the frame limit")
+  bounds="every payload length 0..=246-#SAPs (LE <= 249) with one symbolic fill byte; unwind 100", obligation="wire bytes == reference frame, round trip, for all lengths up to the frame limit")
 
 # ---- C10 -------------------------------------------------------------------------------------
 DEC = ["Telegram::deserialize", "DataTelegram::deserialize", "TokenTelegram::deserialize", "FunctionCode::from_byte",
@@ -54,9 +54,9 @@ h("c10_decoder_total_q", "fdl_telegram.rs", TG, ["C10"], panic_props=["C10", "C0
   bounds="every byte string of length 0..=32; unwind 34",
   obligation="no panic; Ok((t,n)) => 1<=n<=len, n==t.telegram_len(), payload inside the consumed frame; None => input shorter than the announced frame")
 h("c10_decoder_total_t", "fdl_telegram.rs", TG, ["C10"], panic_props=["C10", "C05"], tier="thorough", timeout_s=3000, mem_gb=12, weight=2, functions=DEC,
-  bounds="every byte string of length 0..=262 (the largest frame is 255 bytes); unwind 164", obligation="as c10_decoder_total_q")
+  bounds="every byte string of length 0..=262 (the largest frame is 255 bytes); unwind 104", obligation="as c10_decoder_total_q")
 h("c10_decoder_accept_q", "fdl_telegram.rs", TG, ["C10"], timeout_s=600, functions=DEC,
-  bounds="every byte string of length 0..=24; unwind 16",
+  bounds="every byte string of length 0..=24; unwind 10",
   obligation="Ok(Data) => SD in {SD1,SD2,SD3}; SD2 => LE==LEr>=3 and repeated SD2; FCS == sum(DA..DU); ED; decoded addresses/SAP presence == address octets")
 h("c10_decoder_accept_t", "fdl_telegram.rs", TG, ["C10"], tier="thorough", timeout_s=3000, mem_gb=12, weight=2, functions=DEC,
   bounds="every byte string of length 0..=80; unwind 82", obligation="as c10_decoder_accept_q")
@@ -132,7 +132,7 @@ h("c14_master_receive_3slots_q", "dp_master.rs", MV, ["C14"], panic_props=["C14"
   obligation="a reply touches only the addressed slot; the cycle advances to the next occupied slot or completes (reported once); the event names the replying peripheral")
 h("c14_master_transmit_2slots_q", "dp_master.rs", MV, ["C14"], panic_props=["C14", "C05"], timeout_s=2400, mem_gb=14, weight=4, functions=MASF, derived_loops=[""], stubbing=True,
   stubs=["Peripheral::transmit_telegram -> reference behaviour proved by c03_transmit_step_* (request kind, retry counting, Offline event); frame contents not modelled"],
-  bounds="2 storage slots with symbolic occupancy (sparse included), each occupied slot an arbitrary peripheral under Inv_DP (1-byte images, user prm/config present or not); any master state (Stop/Clear/Operate, cycle index or CycleCompleted, last global control); unwind 16",
+  bounds="2 storage slots with symbolic occupancy (sparse included), each occupied slot an arbitrary peripheral under Inv_DP (1-byte images, user prm/config present or not); any master state (Stop/Clear/Operate, cycle index or CycleCompleted, last global control); unwind 10",
   obligation=MAS_OBL)
 h("c14_master_transmit_3slots_t", "dp_master.rs", MV, ["C14"], panic_props=["C14", "C05"], tier="thorough", timeout_s=7200, mem_gb=20, weight=6, functions=MASF, derived_loops=[""], stubbing=True,
   stubs=["Peripheral::transmit_telegram -> reference behaviour proved by c03_transmit_step_*"],
@@ -183,11 +183,12 @@ l2("l2_pass_token", ["FdlActiveStation::{do_pass_token,next_gap_poll,transmit_ga
 l2("l2_await_status_response", ["FdlActiveStation::{do_await_status_response,await_gap_poll_response,do_pass_token}"], ["C01", "C02", "C05", "C06", "C11", "C12"],
    "universal C01 obligations; reply from the polled address: ready master => set_next_station reported, else NS unchanged, then PassToken without another poll; any other telegram => back off to ActiveIdle; silence for a slot => token passed at once; sweep position unchanged; Inv_FDL preserved")
 
-l2("l2_use_token", ["FdlActiveStation::{do_use_token,apps_transmit_telegram,app_transmit_telegram,schedule_next_application}", "NdApp (harness application)"], ["C01", "C02", "C05", "C13", "C15"],
-   "universal C01 obligations; hold time = previous token receipt + TTR (minus one GAP poll when pending), set on the first poll of a visit; applications asked in round-robin order from next_application, each at most once per poll, low priority only while now < end of hold time, else only the one guaranteed high-priority cycle; a decline advances the turn by one; sender keeps its turn; request expecting a reply => AwaitDataResponse for that address; token passed when all declined once or the hold time is over; 0..3 applications; Inv_FDL preserved", weight=3, timeout_s=2400, unwind=10)
-l2("l2_await_data_response", ["FdlActiveStation::{do_await_data_response,do_use_token,apps_transmit_telegram}", "NdApp (harness application)"], ["C01", "C02", "C05", "C06", "C13", "C15"],
-   "universal C01 obligations; admission: only SC or a response telegram from the awaited address to this station is delivered, once, to the application that sent; anything else => ActiveIdle without callback; time-out after a silent slot delivered once to the sender, then the token is used again at once (guaranteed cycle counted as used); at most one of reply/time-out; 1..3 applications; Inv_FDL preserved", weight=3, timeout_s=2400, unwind=10)
-
+UTF = ["FdlActiveStation::{do_use_token,apps_transmit_telegram,app_transmit_telegram,schedule_next_application}", "NdApp (harness application)"]
+ADF = ["FdlActiveStation::{do_await_data_response,do_use_token,apps_transmit_telegram}", "NdApp (harness application)"]
+for nm, k in [("l2_use_token_0apps", 0), ("l2_use_token_1app", 1), ("l2_use_token_2apps", 2)]:
+    l2(nm, UTF, ["C01", "C02", "C05", "C13", "C15"], "universal C01 obligations; hold time = previous token receipt + TTR (minus one GAP poll when pending), set on the first poll of a visit; applications asked in round-robin order from next_application, each at most once per poll, low priority only while now < end of hold time, else only the one guaranteed high-priority cycle; a decline advances the turn by one; sender keeps its turn; request expecting a reply => AwaitDataResponse for that address; token passed when all declined once or the hold time is over; PHY buffer empty apart from the pending byte count; Inv_FDL preserved" + "; exactly %d application(s)" % k, log_variant=(k == 2), weight=2, timeout_s=1800, unwind=10)
+for nm, k in [("l2_await_data_response_1app", 1), ("l2_await_data_response_2apps", 2)]:
+    l2(nm, ADF, ["C01", "C02", "C05", "C06", "C13", "C15"], "universal C01 obligations; admission: only SC or a response telegram from the awaited address to this station is delivered, once, to the application that sent; anything else => ActiveIdle without callback; time-out after a silent slot delivered once to the sender, then the token is used again at once (guaranteed cycle counted as used); at most one of reply/time-out; 0..1 buffered telegram; Inv_FDL preserved" + "; exactly %d application(s)" % k, log_variant=(k == 2), weight=2, timeout_s=1800, unwind=10)
 # ---- C20: gsd-parser parameter packing (external crate, public API) ----------------------------------
 h("c20_kernel", "harness.rs", "harness", ["C20"], crate="ext-gsd", timeout_s=300, functions=["UserPrmDataType::{write_value_to_slice,size}"],
   bounds="ALL 8 data types (bit index 0..7, bit areas first<=last<=7), ALL i64 values, ALL 4-byte windows",
@@ -263,6 +264,10 @@ h("c07_history_progress_limit3_t", "dp_peripheral.rs", PV, ["C07", "C14"], tier=
 h("c07_silent_goes_offline", "dp_peripheral.rs", PV, ["C07", "C08"], timeout_s=1800, mem_gb=10, weight=2, functions=["RefMaster"],
   bounds="EVERY live RefMaster state, max_retry_limit 1..15 symbolic, 36 silent turns; unwind 40",
   obligation="exactly one Offline event; exactly 1+limit transmissions (counting earlier ones) before it; afterwards only diagnostics probes with the initial FCB")
+
+for nm, fn, pr in [("l2_use_token_3apps_t", "do_use_token", ["C01", "C05", "C13", "C15"]), ("l2_await_data_response_3apps_t", "do_await_data_response", ["C01", "C05", "C06", "C13", "C15"])]:
+    h(nm, "fdl_active.rs", AV, pr, panic_props=["C05"], tier="thorough", timeout_s=7200, mem_gb=16, weight=4, stubbing=True, functions=L2F + ["FdlActiveStation::" + fn], stubs=L2STUBS,
+      bounds=L2BOUNDS + "; exactly 3 applications; unwind 10", obligation="as the 2-application variant, with 3 applications")
 
 PROPERTIES = {
     "C09": {
